@@ -249,7 +249,12 @@ func (t *Ticket) GetPACType(keytab *keytab.Keytab, sname *types.PrincipalName, l
 func (t *Ticket) Valid(d time.Duration) (bool, error) {
 	// Check for future tickets or invalid tickets
 	time := time.Now().UTC()
-	if t.DecryptedEncPart.StartTime.Sub(time) > d || types.IsFlagSet(&t.DecryptedEncPart.Flags, flags.Invalid) {
+	// RFC 4120 5.3: if the starttime is absent from the ticket it is to be treated as that of the authtime
+	start := t.DecryptedEncPart.StartTime
+	if start.IsZero() {
+		start = t.DecryptedEncPart.AuthTime
+	}
+	if start.Sub(time) > d || types.IsFlagSet(&t.DecryptedEncPart.Flags, flags.Invalid) {
 		return false, NewKRBError(t.SName, t.Realm, errorcode.KRB_AP_ERR_TKT_NYV, "service ticket provided is not yet valid")
 	}
 
